@@ -279,11 +279,42 @@ def gen_dom_tables(g: Gen, c: Contract):
     return {'entries': entries, 'nodes': nodes, 'preds_table': preds, 'succs_table': succs}
 
 
+def gen_view(g: Gen, c: Contract):
+    """a level with a unique head most of the time, duplicate targets, sometimes a region whose exiting block mirrors it"""
+    r = g.rng
+    scfg = g.scfg(with_be=0.1, ext=0.3)
+    keys = list(scfg.graph)
+    if r.random() < 0.6:
+        # make keys[0] the unique head: drop it from every target tuple, chain the others behind it
+        h = keys[0]
+        for k in keys:
+            b = scfg.graph[k]
+            jt = tuple(t for t in b._jump_targets if t != h)
+            if isinstance(b, g.bb.SyntheticBranch):
+                continue
+            scfg.graph[k] = g.bb.BasicBlock(name=k, _jump_targets=jt, backedges=tuple(t for t in b.backedges if t in jt))
+        rest = [k for k in keys[1:]]
+        if rest:
+            hb = scfg.graph[h]
+            if not isinstance(hb, g.bb.SyntheticBranch):
+                scfg.graph[h] = g.bb.BasicBlock(name=h, _jump_targets=tuple(rest[:2]) + ((rest[0],) if r.random() < 0.3 else ()), backedges=())
+    if r.random() < 0.3 and keys:
+        k = r.choice(keys)
+        b = scfg.graph[k]
+        inner = g.bb.BasicBlock(name='x', _jump_targets=b._jump_targets if r.random() < 0.9 else (), backedges=b.backedges)
+        sub = g.SCFG({'x': inner}, name_gen=scfg.name_gen)
+        scfg.graph[k] = g.bb.RegionBlock(name=k, _jump_targets=b._jump_targets, backedges=b.backedges, kind='loop', header='x',
+                                         subregion=sub, exiting='x', parent_region=scfg.region)
+    view = scfg.concealed_region_view
+    head = None if r.random() < 0.7 else r.choice(keys + ['zz'])
+    return {'self': view, 'head': head}
+
+
 def gen_scfg_only(g: Gen, c: Contract):
     return {'scfg': g.scfg(with_be=0.15, ext=0.4)}
 
 
-GENERATORS = {'scfg_only': gen_scfg_only, 'dom_tables': gen_dom_tables, 'stream': gen_stream, 'flowinfo': gen_flowinfo, 'block_bcmap': gen_block_bcmap, 'namegen': gen_namegen, 'insert_ctrl': gen_insert_ctrl, 'tails_exits': gen_tails_exits, 'graph_and_pair': gen_graph_and_pair, 'graph_and_subset': gen_graph_and_subset, 'insert': gen_insert, 'branch_replace': gen_branch_replace}
+GENERATORS = {'view': gen_view, 'scfg_only': gen_scfg_only, 'dom_tables': gen_dom_tables, 'stream': gen_stream, 'flowinfo': gen_flowinfo, 'block_bcmap': gen_block_bcmap, 'namegen': gen_namegen, 'insert_ctrl': gen_insert_ctrl, 'tails_exits': gen_tails_exits, 'graph_and_pair': gen_graph_and_pair, 'graph_and_subset': gen_graph_and_subset, 'insert': gen_insert, 'branch_replace': gen_branch_replace}
 
 
 def gen_args(g: Gen, c: Contract):
@@ -305,6 +336,10 @@ def describe(v):
             return {'FlowInfo': {'block_offsets': sorted(v.block_offsets), 'jump_insts': {str(k): list(t) for k, t in v.jump_insts.items()}, 'last_offset': v.last_offset}}
         if type(v).__name__ == 'SCFG':
             return {'SCFG': {k: describe(b) for k, b in v.graph.items()}, 'kinds': dict(v.name_gen.kinds)}
+        if type(v).__name__ == 'RegionBlock':
+            return {'class': 'RegionBlock', 'name': v.name, '_jump_targets': list(v._jump_targets), 'backedges': list(v.backedges),
+                    'kind': v.kind, 'header': v.header, 'exiting': v.exiting,
+                    'subregion': None if v.subregion is None else describe(v.subregion)}
         d = {'class': type(v).__name__}
         for f in dataclasses.fields(v):
             x = getattr(v, f.name)
@@ -312,6 +347,8 @@ def describe(v):
                 continue
             d[f.name] = describe(x)
         return d
+    if type(v).__name__ == 'ConcealedRegionView':
+        return {'ConcealedRegionView': describe(v.scfg)}
     if isinstance(v, (list, tuple)):
         return [describe(x) for x in v]
     if isinstance(v, (set, frozenset)):
@@ -340,8 +377,14 @@ def rebuild(d, g: Gen = None):
         return FlowInfo(block_offsets=set(f['block_offsets']), jump_insts={int(k): tuple(t) for k, t in f['jump_insts'].items()}, last_offset=f['last_offset'])
     if isinstance(d, dict) and 'NameGenerator' in d:
         return NameGenerator(kinds=dict(d['NameGenerator']))
+    if isinstance(d, dict) and 'ConcealedRegionView' in d:
+        return rebuild(d['ConcealedRegionView']).concealed_region_view
     if isinstance(d, dict) and 'SCFG' in d:
         return SCFG({k: rebuild(b) for k, b in d['SCFG'].items()}, name_gen=NameGenerator(kinds=dict(d.get('kinds', {}))))
+    if isinstance(d, dict) and d.get('class') == 'RegionBlock':
+        return bb.RegionBlock(name=d['name'], _jump_targets=tuple(d['_jump_targets']), backedges=tuple(d['backedges']), kind=d['kind'],
+                              header=d['header'], exiting=d['exiting'], subregion=rebuild(d['subregion']) if d.get('subregion') else None,
+                              parent_region=None)
     if isinstance(d, dict) and 'class' in d:
         cls = getattr(bb, d['class'])
         kw = {}
